@@ -9,6 +9,12 @@ Section C15.
   Definition c15_corr (c : c15case) : bool :=
     list_eqb (tagged_eqb eqb) (merge_necessity eqb (c_v c) (c_o c)) (c_impl c).
 
+  (* the same when the items' equality is coarser than identity (a key with a payload): the
+     merge runs on `eqb`, the results are compared with the full equality — which of two equal
+     items survives is part of the behaviour *)
+  Definition c15_corr2 (full : A -> A -> bool) (c : c15case) : bool :=
+    list_eqb (tagged_eqb full) (merge_necessity eqb (c_v c) (c_o c)) (c_impl c).
+
   (* oracle: the property itself, as a boolean, on the implementation's output; only
      meaningful when both inputs are duplicate-free (else vacuously true) *)
   Definition mem_item (x : A) (l : list (nec * A)) := existsb (fun it => eqb (snd it) x) l.
@@ -28,3 +34,5 @@ Section C15.
     nodup_b eqb (map snd (c_v c)) && nodup_b eqb (map snd (c_o c)).
 End C15.
 Arguments Build_c15case {A}.
+Definition key_eqb (a b : N * N) : bool := N.eqb (fst a) (fst b).
+Definition pair_eqb (a b : N * N) : bool := N.eqb (fst a) (fst b) && N.eqb (snd a) (snd b).
